@@ -129,7 +129,7 @@ class TrajGenBoltzmann:
             x = self.position
             p = self.random_state.normal(0.0, self.sigma)
             if self.scale:
-                avg_KE = 0.5 * np.dot(p**2, np.reciprocal(self.mass)) / x.size
+                avg_KE = 0.5 * np.dot(p**2, 1.0 / self.mass) / x.size
                 kbT2 = 0.5 * self.kt
                 scal = np.sqrt(kbT2 / avg_KE)
                 p *= scal
